@@ -38,15 +38,6 @@ def runsOk (m : Mode) (l : ECL) : Bool := runsOkAux m l (T.getRuns m l) 0
 
 theorem runsOk_all : ∀ m ∈ Mode.all, ∀ l ∈ ECL.all, runsOk m l = true := by decide +kernel
 
-/-- the crate's capacity-related tables are the ISO ones -/
-def tablesOk : Bool :=
-  (List.range 40).all fun v =>
-    ECL.all.all (fun l => T.dataBits l v == Spec.dataBits v l
-        && T.dataCodewords l v * 8 == Spec.dataBits v l) &&
-    Mode.all.all (fun m => T.cciBits m v == Spec.cciBits m v)
-
-theorem tablesOk_true : tablesOk = true := by decide +kernel
-
 /-- payload bits usable in version `v` -/
 def usable (m : Mode) (l : ECL) (v : Nat) : Nat := Spec.dataBits v l - (4 + Spec.cciBits m v)
 
@@ -190,18 +181,6 @@ theorem C05_no_overflow (m : Mode) (l : ECL) (len : Nat) (forced : Option Nat) (
         exact ⟨hu, by simpa [fits] using fits_mono_version m l hge hu len hauto.2.1⟩
       · simp at h
 
-/-- the same statement on the crate's own tables (what `add_terminator` computes with) -/
-theorem C05_no_overflow_tables (m : Mode) (l : ECL) (len : Nat) (forced : Option Nat) (v : Nat)
-    (hforced : ∀ u, forced = some u → u < 40)
-    (h : chooseVersion m l len forced = .ok v) :
-    4 + T.cciBits m v + payloadBits m len ≤ T.dataBits l v := by
-  obtain ⟨hv, hfit⟩ := C05_no_overflow m l len forced v hforced h
-  have hok := tablesOk_true
-  simp only [tablesOk, List.all_eq_true, Bool.and_eq_true, beq_iff_eq, List.mem_range] at hok
-  obtain ⟨h1, h2⟩ := hok v hv
-  rw [(h1 l (ECL.mem_all l)).1, h2 m (Mode.mem_all m)]
-  exact hfit
-
 /-- **C05 (count field)**: an input that fits has fewer than 2^cci characters. -/
 theorem C05_count_fits (m : Mode) (l : ECL) {v : Nat} (hv : v < 40) (len : Nat)
     (h : fits m l v len = true) : len < 2 ^ Spec.cciBits m v := by
@@ -212,15 +191,6 @@ theorem C05_count_fits (m : Mode) (l : ECL) {v : Nat} (hv : v < 40) (len : Nat)
   intro hge
   have := fits_antitone m l v (Nat.le_of_not_lt hge) h
   simp [hno] at this
-
-/-- **C05 (tables)** -/
-theorem C05_tables {v : Nat} (hv : v < 40) (l : ECL) (m : Mode) :
-    T.dataBits l v = Spec.dataBits v l ∧ T.dataCodewords l v * 8 = Spec.dataBits v l ∧
-      T.cciBits m v = Spec.cciBits m v := by
-  have hok := tablesOk_true
-  simp only [tablesOk, List.all_eq_true, Bool.and_eq_true, beq_iff_eq, List.mem_range] at hok
-  obtain ⟨h1, h2⟩ := hok v hv
-  exact ⟨(h1 l (ECL.mem_all l)).1, (h1 l (ECL.mem_all l)).2, h2 m (Mode.mem_all m)⟩
 
 /-! ### non-vacuity: concrete instances -/
 example : versionGet .byte .Q 8 = some 0 := by decide +kernel
